@@ -104,6 +104,28 @@ let run line =
       (match read_known (bool_of_tok e) (nat_of_int (int_of_string n)) (bytes_of_tok b) with
        | Err er -> "err " ^ err_name er
        | Ok (ks, rest) -> "ok " ^ recs_tok ks ^ " " ^ string_of_int (List.length rest))
+  | ["file"; hs; v14; sn; se; vl; npts; evl] ->
+      (* one generation of a file: the lists a user holds (k-prefixed records went through the reader) written by a
+         writer whose header announces sn EVLRs at se, then read *)
+      let kv t = if String.length t > 0 && t.[0] = 'k' then vlr_factory (vlr_of_tok (String.sub t 1 (String.length t - 1)))
+                 else KRaw (vlr_of_tok t) in
+      let kl t = List.map kv (split_on '|' t) in
+      let hsz = z_of_string hs in
+      let pts = List.init (int_of_string npts) (fun _ -> Z0) in
+      let stale = { l_nvlr = Z0; l_offset = Z0; l_nevlr = z_of_string sn; l_estart = z_of_string se } in
+      (match write_file_known hsz (bool_of_tok v14) stale (kl vl) pts (if evl = "none" then None else Some (kl evl)) with
+       | Err er -> "err " ^ err_name er
+       | Ok (loc, body) ->
+         (match read_file hsz (bool_of_tok v14) loc body with
+          | Err er -> "rerr " ^ err_name er
+          | Ok (ks, eo) ->
+            let rec drop n l = if n <= 0 then l else (match l with [] -> [] | _ :: r -> drop (n - 1) r) in
+            let rec take n l = if n <= 0 then [] else (match l with [] -> [] | x :: r -> x :: take (n - 1) r) in
+            let vb = take (int_of_z loc.l_offset - int_of_z hsz) body in
+            let eb = if int_of_z loc.l_nevlr > 0 then drop (int_of_z loc.l_estart - int_of_z hsz) body else [] in
+            String.concat " " ["ok"; string_of_z loc.l_nvlr; string_of_z loc.l_offset; string_of_z loc.l_nevlr;
+                               string_of_z loc.l_estart; string_of_int (List.length body); hex vb; hex eb; recs_tok ks;
+                               (match eo with None -> "none" | Some l -> recs_tok l)]))
   | ["ser_lookup"; l] -> res hex (ser_lookup (lookup_of_tok l))
   | ["wf_lookup"; p] -> tok_of_bool (wf_lookup_payload (bytes_of_tok p))
   | ["wf_geokeys"; p] -> tok_of_bool (wf_geokeys_payload (bytes_of_tok p))
